@@ -9,7 +9,8 @@ RUN_MODULE = "Model.TxnConc Run.C05"
 EXPLAIN = "explain"
 RULE = ("2-4 real asyncio tasks, each a program of 1-3 items: a direct cache command, or a transactional block (mode fast / locked / serializable; "
         "form: context manager, ONE shared decorated function called by all tasks, context manager nested in either, decorated function nested in "
-        "either; 1-4 commands get / set / incr / delete / sleep over keys k0..k2; ends normally or raises), transaction timeout 0.35-0.75 s; every "
+        "either, one context object entered again inside itself, a context manager with an explicit commit() / rollback() in the middle of its body; "
+        "1-4 commands get / set / set-if / incr / delete / expire / sleep over keys k0..k2; ends normally or raises), transaction timeout 0.35-0.75 s; every "
         "get / set / incr / delete / delete_many / set_many / set_lock / unlock reaching the Memory instance is gated, the unlocks issued through "
         "gather are separate tasks; the schedule (which parked command runs next, when the clock advances to the next timer - the 0.1 s of the lock "
         "wait loop, a sleep in a body) is a seeded list of choices; thorough tier: EVERY schedule of selected 2-task programs per mode. Observed: each "
@@ -45,7 +46,8 @@ def _rand_cmd(rng, keys):
     if r < 0.32: return ["put", k, rng.randint(1, 9)]
     if r < 0.4: return ["putif", k, rng.randint(1, 9), rng.random() < 0.6 and False or rng.random() < 0.5]
     if r < 0.8: return ["incr", k, rng.choice([1, 1, 2, 5])]
-    if r < 0.92: return ["del", k]
+    if r < 0.9: return ["del", k]
+    if r < 0.94: return ["touch", k]
     return ["sleep", rng.choice([1, 2, 4, 8])]
 
 
@@ -61,7 +63,7 @@ def _rand_case(rng):
                 prog.append({"kind": "direct", "cmd": _rand_cmd(rng, keys)})
             else:
                 prog.append({"kind": "txn", "mode": mode if rng.random() < 0.8 else rng.choice(["fast", "locked", "serializable"]),
-                             "form": rng.choice(["ctx", "decor", "decor", "ctx_in_ctx", "decor_in_decor", "ctx_in_decor", "decor_in_ctx", "ctx_reentered"]),
+                             "form": rng.choice(["ctx", "decor", "decor", "ctx_in_ctx", "decor_in_decor", "ctx_in_decor", "decor_in_ctx", "ctx_reentered", "ctx_midcommit", "ctx_midrollback"]),
                              "cmds": [_rand_cmd(rng, keys) for _ in range(rng.randint(1, 4))], "raise": rng.random() < 0.2})
         tasks.append(prog)
     return {"timeout": rng.choice([0.35, 0.55, 0.75]), "init": {str(k): rng.randint(0, 9) for k in keys if rng.random() < 0.6},
@@ -72,8 +74,9 @@ def _counter_case(rng):
     """the shape the property singles out: N tasks incrementing one counter through one shared decorated function"""
     mode = rng.choice(["locked", "serializable"])
     nt = rng.randint(2, 4)
-    tasks = [[{"kind": "txn", "mode": mode, "form": rng.choice(["decor", "decor", "ctx", "decor_in_decor"]),
-               "cmds": ([["putif", 2, 1, False]] if rng.random() < 0.3 else []) + [["incr", 0, rng.choice([1, 2])]] + ([["incr", 1, 1]] if rng.random() < 0.3 else []),
+    tasks = [[{"kind": "txn", "mode": mode, "form": rng.choice(["decor", "decor", "ctx", "decor_in_decor", "ctx_midcommit"]),
+               "cmds": ([["putif", 2, 1, False]] if rng.random() < 0.3 else []) + ([["touch", 0]] if rng.random() < 0.25 else []) + [["incr", 0, rng.choice([1, 2])]] +
+                       ([["incr", rng.choice([0, 1]), 1]] if rng.random() < 0.4 else []),
                "raise": rng.random() < 0.15}
               for _ in range(rng.randint(1, 2))] for _ in range(nt)]
     return {"timeout": 0.75, "init": {"0": rng.randint(0, 5)}, "tasks": tasks, "schedule": [rng.randrange(12) for _ in range(40)]}
@@ -197,6 +200,8 @@ def _run(case):
                             log.append(["cmd", tick(), who(), "incr", int(key[1:]), r, 0, snap()])
                         elif name == "delete":
                             log.append(["cmd", tick(), who(), "delete", int(key[1:]), int(bool(r)), 0, snap()])
+                        elif name == "expire":
+                            log.append(["cmd", tick(), who(), "expire", int(key[1:]), None, 0, snap()])
                         else:
                             log.append(["cmd", tick(), who(), name, 98, None, 0, snap()])     # a command the model does not expect
                         return r
@@ -214,6 +219,7 @@ def _run(case):
                 if op == "putif": return int(bool(await cache.set(_keyname(cmd[1]), cmd[2], exist=cmd[3])))
                 if op == "incr": return await cache.incr(_keyname(cmd[1]), cmd[2])
                 if op == "del": return int(bool(await cache.delete(_keyname(cmd[1]))))
+                if op == "touch": return await cache.expire(_keyname(cmd[1]), 0)      # a write command that changes no value
                 await asyncio.sleep(cmd[1] * 0.1); return None
 
             async def body(cmds, fail, res):
@@ -247,6 +253,23 @@ def _run(case):
                         await body(cmds[:half], False, res)
                         async with uow:
                             return await body(cmds[half:], fail, res)
+                if form in ("ctx_midcommit", "ctx_midrollback"):
+                    # an explicit commit / rollback in the middle of the block: the two parts behave as two blocks back to back
+                    i = who()
+                    async with cache.transaction(mode=tm, timeout=T) as tx:
+                        try:
+                            await body(cmds[:half], False, res)
+                            if form == "ctx_midcommit":
+                                await tx.commit()
+                                log.append(["end", tick(), i, "ok", list(res)])
+                            else:
+                                await tx.rollback()
+                                log.append(["end", tick(), i, "raised", list(res)])
+                        except LockedError:
+                            await tx.rollback()
+                            log.append(["end", tick(), i, "locked", []])
+                        log.append(["begin", tick(), i])
+                        return await body(cmds[half:], fail, [])
                 if form == "decor_in_decor":
                     async def outer(res):
                         await body(cmds[:half], False, res)
@@ -310,20 +333,25 @@ def _cmd(c):
     if op == "incr": return C("Incr", Nat(c[1]), Z(c[2]))
     if op == "putif": return C("PutIf", Nat(c[1]), Z(c[2]), bool(c[3]))
     if op == "del": return C("Del", Nat(c[1]))
+    if op == "touch": return C("Touch", Nat(c[1]))
     return C("Sleep", Z(2 * c[1]))
 
 
-def _item(it):
-    if it["kind"] == "direct": return C("Direct", _cmd(it["cmd"]))
+def _items(it):
+    if it["kind"] == "direct": return [C("Direct", _cmd(it["cmd"]))]
     md = C({"fast": "Fast", "locked": "Locked", "serializable": "Serial"}[it["mode"]])
-    return C("Txn", C("Build_block", md, [_cmd(c) for c in it["cmds"]], bool(it["raise"])))
+    if it["form"] in ("ctx_midcommit", "ctx_midrollback"):
+        half = len(it["cmds"]) // 2
+        return [C("Txn", C("Build_block", md, [_cmd(c) for c in it["cmds"][:half]], it["form"] == "ctx_midrollback")),
+                C("Txn", C("Build_block", md, [_cmd(c) for c in it["cmds"][half:]], bool(it["raise"])))]
+    return [C("Txn", C("Build_block", md, [_cmd(c) for c in it["cmds"]], bool(it["raise"])))]
 
 
 def _oz(v):
     return None if v is None else Some(Z(v))
 
 
-BK = {"get": "BGet", "set": "BPut", "incr": "BIncr", "delete": "BDel", "set_lock": "BSetLock", "unlock": "BUnlock", "delete_many": "BDelMany", "set_many": "BSetMany", "exists": "BExists"}
+BK = {"get": "BGet", "set": "BPut", "incr": "BIncr", "delete": "BDel", "set_lock": "BSetLock", "unlock": "BUnlock", "delete_many": "BDelMany", "set_many": "BSetMany", "exists": "BExists", "expire": "BExpire"}
 
 
 def to_coq(case, obs):
@@ -348,7 +376,7 @@ def to_coq(case, obs):
     final = [_oz(v) for v in obs["final"]]
     if obs["deadlock"] or obs["locks_left"]:
         final = [Some(Z(-12345))] + final[1:]          # a stuck run or a lock left behind: flagged
-    return C("CConc", [[_item(it) for it in prog] for prog in case["tasks"]], init, Z(round(case["timeout"] / UNIT)), Nat(attempts(case["timeout"])),
+    return C("CConc", [[x for it in prog for x in _items(it)] for prog in case["tasks"]], init, Z(round(case["timeout"] / UNIT)), Nat(attempts(case["timeout"])),
              [Nat(k) for k in UNIV], tr, Z(obs["tend"]), final)
 
 
